@@ -242,6 +242,9 @@ def check_collapse(rec, ds, case, reference=None, collapser_name=None):
     elif collapser_name == "mean=median":
         # a user function under a default name replaces that default - for this call only
         custom = {"mean": lambda m, a: np.nanmedian(m, axis=a)}
+    elif collapser_name == "first-view":
+        # a user function that hands back a view of the matrix it was given (no copy)
+        custom = {"first": lambda m, a: m[(slice(None),) * a + (0,)]}
     sub = dict(case, reference=reference, collapser=collapser_name)
     before = snapshot(ds)
     try:
@@ -314,8 +317,33 @@ def check_collapse(rec, ds, case, reference=None, collapser_name=None):
                     warnings.simplefilter("ignore")
                     med[j] = np.nanmedian(rows, axis=0) if rows.size else np.nan
             checks[0] = ("mean", med, tol)
+        if collapser_name == "first-view":
+            # whichever partner an implementation puts first: every entry of <var>_first is the value of
+            # one partner of that reference point in THIS variable (or the NaN padding of a short row)
+            name = "%s_first" % v
+            if name not in col.variables:
+                rec.violation("collapse-wrong", sub, {"why": "statistic missing", "var": name})
+                return
+            got = move_first(col[name], "collocation").values
+            if got.shape != (nref,) + tail:
+                rec.violation("collapse-wrong", sub, {"why": "statistic has another shape", "var": name,
+                                                      "got": list(got.shape), "want": [nref] + list(tail)})
+                return
+            for j in range(nref):
+                rows = np.asarray(x[partners[j]], dtype=float)
+                g = np.asarray(got[j], dtype=float)
+                ok_el = np.isnan(g) | (rows == g).any(axis=0) if rows.size else np.isnan(g)
+                if not np.all(ok_el):
+                    rec.violation("collapse-wrong", sub,
+                                  {"why": "value of a custom collapser that returns a view of its matrix is "
+                                          "not a partner value of this variable", "var": name, "row": j,
+                                   "got": np.ravel(g)[:3].tolist(),
+                                   "partner_values": np.ravel(rows)[:6].tolist()})
+                    return
+            rec.count("collapse.view_collapser_vars")
         # no statistic other than the requested ones may appear (e.g. left over from an earlier call)
-        allowed = {"%s_%s" % (v, fn) for fn, _, _ in checks}
+        allowed = {"%s_%s" % (v, fn) for fn, _, _ in checks} | (
+            {"%s_first" % v} if collapser_name == "first-view" else set())
         stray = [str(n) for n in col.variables if str(n).startswith(v + "_") and str(n) not in allowed
                  and str(n)[len(v) + 1:] in ("max", "min", "median", "sum", "mean", "std", "number")]
         if stray:
@@ -417,7 +445,8 @@ def run_case(rec, rng, spec):
     for ref in (None, A, B):
         r = rng.random()
         check_collapse(rec, ds, spec, reference=ref,
-                       collapser_name="max" if r < 0.25 else "mean=median" if r < 0.45 else None)
+                       collapser_name="max" if r < 0.2 else "mean=median" if r < 0.35
+                       else "first-view" if r < 0.55 else None)
     pairs = ds["Collocations/pairs"].values
     multi = np.unique(pairs[0]).size < pairs.shape[1]
     if multi and spec["shuffle"]:
@@ -469,7 +498,7 @@ def replay(case, rec):
         check_expand(rec, ds, case)
         A, B = case["names"]
         for ref in (None, A, B):
-            for c in (None, "max"):
+            for c in (None, "max", "first-view"):
                 check_collapse(rec, ds, case, reference=ref, collapser_name=c)
     elif case.get("kind") == "concat":
         check_concat(rec, [build_compact(s) for s in case["specs"]], case)
